@@ -72,7 +72,9 @@ func (d *scriptDriver) GetDriverInfo() common.TracerouteDriverInfo {
 	return common.TracerouteDriverInfo{SupportsParallel: d.parallel}
 }
 
-func ipOf(i int) netip.Addr { return netip.AddrFrom4([4]byte{10, byte(i >> 16), byte(i >> 8), byte(i)}) }
+func ipOf(i int) netip.Addr {
+	return netip.AddrFrom4([4]byte{10, byte(i >> 16), byte(i >> 8), byte(i)})
+}
 func ipIdx(a netip.Addr) int {
 	b := a.As4()
 	return int(b[1])<<16 | int(b[2])<<8 | int(b[3])
@@ -171,11 +173,11 @@ func (d *scriptDriver) ReceiveProbe(timeout time.Duration) (*common.ProbeRespons
 // ---- one engine case --------------------------------------------------------
 
 type engCase struct {
-	serial                bool
-	first, last           int
-	timeout, poll, delay  time.Duration
-	script                []scriptEntry
-	cancelAt              time.Duration // 0: the caller's context is never cancelled
+	serial               bool
+	first, last          int
+	timeout, poll, delay time.Duration
+	script               []scriptEntry
+	cancelAt             time.Duration // 0: the caller's context is never cancelled
 }
 
 func (c engCase) input() sx {
